@@ -382,6 +382,7 @@ func lenClass(n int) string { return fmt.Sprintf("len%d", n) }
 func runC17(r *Run) {
 	c17WriteBuf(r)
 	c17WriteBufEdges(r)
+	c17OverlongInPositions(r)
 	c17ReadBuf(r)
 	if r.replay != nil {
 		replayC17(r)
